@@ -219,9 +219,75 @@ def install(w):
     w.attr_stubs[(FinishedPdu, "delivery_code")] = lambda I, p: p.f["finished_params"].f["delivery_code"]
     w.attr_stubs[(FinishedPdu, "file_status")] = lambda I, p: p.f["finished_params"].f["file_status"]
 
+    # ------------------------------------------------------------------ TLVs (abstract: an int pair per element)
+    from spacepackets.cfdp.tlv import CfdpTlv, ReservedCfdpMessage, ProxyMessageType
+    from spacepackets.cfdp.tlv import TlvTypeMissmatchError
+    from pyvc.core import obj_wrapper
+    S[CfdpTlv] = {"_pair": T.Pair}           # (tlv_type, identity of the value)
+    S[MessageToUserTlv] = {"_pair": T.Pair}  # (kind, identity): kind 0 plain, 1 originating transaction id,
+    S[ReservedCfdpMessage] = {"_pair": T.Pair}  # 2 proxy put response, 3 other proxy operation, 4 other reserved message
+    w.msg_kind_of_value = z3.Function("msg_kind_of_value", I_, I_)
+    w.orig_id_source = z3.Function("orig_id_source", I_, I_)
+    w.orig_id_seq = z3.Function("orig_id_seq", I_, I_)
+
     @w.stub_method(MetadataPdu, "options_as_tlv")
     def _md_options(I, self, args, kwargs, node):
-        return self.f["options"] if not isinstance(self.f["options"], Opaque) else SOpt(I.ctx.fresh("md.options?none", "bool"), Opaque("tlv-list"))
+        # the options of the PDU as a list of CfdpTlv objects (None when the PDU has no options); the same abstract
+        # list on every call
+        if "_options_tlv" not in self.f:
+            nm = f"{self.label or 'md'}.options"
+            l = SPairList.fresh(nm)
+            I.ctx.assume(l.n >= 0)
+            cell = ListCell(l)
+            cell.wrap = obj_wrapper(CfdpTlv)
+            self.f["_options_tlv"] = SOpt(z3.Bool(nm + "?none"), cell)
+        return self.f["_options_tlv"]
+
+    @w.stub_attr(CfdpTlv, "tlv_type")
+    def _tlv_type(I, t):
+        e = SEnum(TlvType, t.f["_pair"][0])
+        I.ctx.assume(e.domain())
+        return e
+
+    @w.stub_method(MessageToUserTlv, "from_tlv")
+    def _mtu_from_tlv(I, cls, args, kwargs, node):
+        (t,) = args
+        a, b = t.f["_pair"]
+        if not I.ctx.decide(a == int(TlvType.MESSAGE_TO_USER)):
+            I.throw(TlvTypeMissmatchError, "not a message to user")
+        return SObj(MessageToUserTlv, {"_pair": (w.msg_kind_of_value(b), b)}, "MessageToUserTlv")
+
+    @w.stub_method(MessageToUserTlv, "is_reserved_cfdp_message")
+    def _mtu_is_reserved(I, m, args, kwargs, node):
+        return m.f["_pair"][0] != 0
+
+    @w.stub_method(MessageToUserTlv, "to_reserved_msg_tlv")
+    def _mtu_to_reserved(I, m, args, kwargs, node):
+        if not I.ctx.decide(m.f["_pair"][0] != 0):
+            return None
+        return SObj(ReservedCfdpMessage, {"_pair": m.f["_pair"]}, "ReservedCfdpMessage")
+
+    @w.stub_method(ReservedCfdpMessage, "is_originating_transaction_id")
+    def _rm_is_orig(I, m, args, kwargs, node):
+        return m.f["_pair"][0] == 1
+
+    @w.stub_method(ReservedCfdpMessage, "is_cfdp_proxy_operation")
+    def _rm_is_proxy(I, m, args, kwargs, node):
+        k = m.f["_pair"][0]
+        return z3.Or(k == 2, k == 3)
+
+    @w.stub_method(ReservedCfdpMessage, "get_cfdp_proxy_message_type")
+    def _rm_proxy_type(I, m, args, kwargs, node):
+        k = m.f["_pair"][0]
+        return SEnum(ProxyMessageType, z3.If(k == 2, int(ProxyMessageType.PUT_RESPONSE), int(ProxyMessageType.PUT_REQUEST)))
+
+    @w.stub_method(ReservedCfdpMessage, "get_originating_transaction_id")
+    def _rm_orig_id(I, m, args, kwargs, node):
+        k, b = m.f["_pair"]
+        if not I.ctx.decide(k == 1):
+            return None
+        return SObj(TransactionId, {"source_id": ubf(w.orig_id_source(b), 2, "orig.src"),
+                                    "seq_num": ubf(w.orig_id_seq(b), 2, "orig.seq")}, "originating_id")
 
     # ------------------------------------------------------------------ PDU constructors
     def bind(names, args, kwargs, defaults=None):
@@ -398,6 +464,24 @@ def install(w):
     def _p_is_dir(I, p, args, kwargs, node):
         I.ctx.effect("hostfs", "Path.is_dir", getattr(node, "lineno", None))
         return I.ctx.fresh("host.is_dir", "bool")
+
+    # every other pathlib method that consults or changes the HOST file system: effect `hostfs`, unknown result
+    for _nm in ["is_file", "is_symlink", "is_absolute_on_host", "samefile", "is_mount", "is_socket", "is_fifo"]:
+        def _mk_bool(nm):
+            def f(I, p, args, kwargs, node):
+                I.ctx.effect("hostfs", f"Path.{nm}", getattr(node, "lineno", None))
+                return I.ctx.fresh(f"host.{nm}", "bool")
+            return f
+        w.call_stubs[("method", "SPath", _nm)] = _mk_bool(_nm)
+    for _nm in ["stat", "lstat", "open", "read_bytes", "read_text", "write_bytes", "write_text", "unlink", "mkdir", "rmdir",
+                "touch", "rename", "replace", "resolve", "iterdir", "glob", "rglob", "chmod", "symlink_to", "absolute",
+                "expanduser", "owner", "group", "readlink", "hardlink_to"]:
+        def _mk_opaque(nm):
+            def f(I, p, args, kwargs, node):
+                I.ctx.effect("hostfs", f"Path.{nm}", getattr(node, "lineno", None))
+                return Opaque(f"Path.{nm}()")
+            return f
+        w.call_stubs[("method", "SPath", _nm)] = _mk_opaque(_nm)
 
     @w.stub_call(builtins.open)
     def _open(I, args, kwargs, node):
